@@ -1,61 +1,266 @@
 import Lemmas.RateLimiterFifo
-/-! Termination of root `Close` on infinite runs under explicit scheduler fairness.  Core Lean. -/
+/-! Termination of root `Close` on infinite runs under fairness assumptions about the SCHEDULER only.  Core Lean. -/
 namespace RL
 
-theorem cpc_send_next {s s' : S} (st : Step s s') (h : s.cpc = .send) : s'.cpc = .send ∨ s'.cpc = .ret := by
+/-! ### what a step can do to the three positions -/
+
+theorem cpc_next {s s' : S} (st : Step s s') :
+    s'.cpc = s.cpc ∨ (s.cpc = .idle ∧ s'.cpc = .crit) ∨ (s.cpc = .crit ∧ (s'.cpc = .marked ∨ s'.cpc = .ret)) ∨
+    (s.cpc = .marked ∧ s'.cpc = .send) ∨ (s.cpc = .send ∧ s' = doDoneReceived s) := by
   cases st with
-  | closeRoot h0 h1 h2 => rw [h] at h2; cases h2
-  | doneReceived => exact Or.inr rfl
-  | _ => exact Or.inl h
+  | closeLock h0 h2 => exact Or.inr (Or.inl ⟨h2, rfl⟩)
+  | closeRoot h0 h1 h2 => exact Or.inr (Or.inr (Or.inl ⟨h2, Or.inl rfl⟩))
+  | closeSkip h1 h2 => exact Or.inr (Or.inr (Or.inl ⟨h2, Or.inr rfl⟩))
+  | closeUnlock h2 => exact Or.inr (Or.inr (Or.inr (Or.inl ⟨h2, rfl⟩)))
+  | doneReceived h1 h2 => exact Or.inr (Or.inr (Or.inr (Or.inr ⟨h2, rfl⟩)))
+  | _ => exact Or.inl rfl
 
-/-- scheduler fairness, (1): a ticker goroutine that waits for the lock (which is free, `lockFree`) eventually runs
-    its critical section and is back at its `select` -/
-def TickerScheduled (run : Nat → S) : Prop := ∀ i, (run i).tpc = .tlock → ∃ j, i ≤ j ∧ (run j).tpc = .sel
+theorem tpc_next {s s' : S} (st : Step s s') :
+    s'.tpc = s.tpc ∨ (s.tpc = .sel ∧ (s'.tpc = .tlock ∨ s'.tpc = .dlock)) ∨ (s.tpc = .tlock ∧ s'.tpc = .tcrit) ∨
+    (s.tpc = .tcrit ∧ s'.tpc = .tunl) ∨ (s.tpc = .tunl ∧ s'.tpc = .sel) ∨ (s.tpc = .dlock ∧ s'.tpc = .dcrit) ∨
+    (s.tpc = .dcrit ∧ s'.tpc = .dunl) ∨ (s.tpc = .dunl ∧ s'.tpc = .tend) := by
+  cases st with
+  | tickFires h => exact Or.inr (Or.inl ⟨h, Or.inl rfl⟩)
+  | doneReceived h1 h2 => exact Or.inr (Or.inl ⟨h1, Or.inr rfl⟩)
+  | tickLock h1 h0 => exact Or.inr (Or.inr (Or.inl ⟨h1, rfl⟩))
+  | tickRuns h1 h0 => exact Or.inr (Or.inr (Or.inr (Or.inl ⟨h1, rfl⟩)))
+  | tickUnlock h1 => exact Or.inr (Or.inr (Or.inr (Or.inr (Or.inl ⟨h1, rfl⟩))))
+  | drainLock h1 h0 => exact Or.inr (Or.inr (Or.inr (Or.inr (Or.inr (Or.inl ⟨h1, rfl⟩)))))
+  | drain h1 h0 => exact Or.inr (Or.inr (Or.inr (Or.inr (Or.inr (Or.inr (Or.inl ⟨h1, rfl⟩))))))
+  | drainUnlock h1 => exact Or.inr (Or.inr (Or.inr (Or.inr (Or.inr (Or.inr (Or.inr ⟨h1, rfl⟩))))))
+  | _ => exact Or.inl rfl
 
-/-- scheduler fairness, (2): a `select` that finds the `done` sender ready again and again eventually takes that case
-    (Go's `select` chooses uniformly among the ready cases) -/
+/-- an API holder keeps the lock or releases it -/
+theorem api_next {c : Nat} {s s' : S} (h : Reachable c s) (st : Step s s') (ha : s.holder = .api) :
+    s'.holder = .api ∨ s'.holder = .free := by
+  obtain ⟨h1, h2, h3⟩ := lockInv h
+  cases st with
+  | useNeg => exact Or.inl ha
+  | apiLock h => rw [ha] at h; cases h
+  | closeLock h0 => rw [ha] at h0; cases h0
+  | closeRoot h0 => rw [ha] at h0; cases h0
+  | closeSkip hc hp => have := h2.mpr (Or.inl hp); rw [ha] at this; cases this
+  | closeUnlock hp => have := h2.mpr (Or.inr hp); rw [ha] at this; cases this
+  | tickFires => exact Or.inl ha
+  | tickLock ht h0 => rw [ha] at h0; cases h0
+  | tickRuns ht h0 => rw [ha] at h0; cases h0
+  | tickUnlock ht => have := h1.mpr (Or.inr (Or.inl ht)); rw [ha] at this; cases this
+  | doneReceived => exact Or.inl ha
+  | drainLock ht h0 => rw [ha] at h0; cases h0
+  | drain ht h0 => rw [ha] at h0; cases h0
+  | drainUnlock ht => have := h1.mpr (Or.inr (Or.inr (Or.inr ht))); rw [ha] at this; cases this
+  | _ => exact Or.inr rfl
+
+/-! ### runs and the fairness of the scheduler -/
+
+structure IsRun (c : Nat) (run : Nat → S) : Prop where
+  start : run 0 = init c
+  step : ∀ i, Step (run i) (run (i + 1))
+
+theorem IsRun.reach {c : Nat} {run : Nat → S} (r : IsRun c run) : ∀ j, Reachable c (run j) := by
+  intro j
+  induction j with
+  | zero => rw [r.start]; exact .init
+  | succ j ih => exact .step _ _ ih (r.step j)
+
+/-- a goroutine that is inside a critical section of its own (it holds the lock and needs nobody) is scheduled: the
+    API holder finishes, the ticker goroutine and the closer move on -/
+structure HoldersRun (run : Nat → S) : Prop where
+  api : ∀ i, (run i).holder = .api → ∃ j, i ≤ j ∧ (run j).holder ≠ .api
+  ticker : ∀ i, ((run i).tpc = .tcrit ∨ (run i).tpc = .tunl) → ∃ j, i ≤ j ∧ (run j).tpc ≠ (run i).tpc
+  closer : ∀ i, ((run i).cpc = .crit ∨ (run i).cpc = .marked) → ∃ j, i ≤ j ∧ (run j).cpc ≠ (run i).cpc
+
+/-- the lock is fair to the ticker goroutine (`sync.Mutex` hands the lock to a starving waiter): if it waits for the
+    lock and finds it free again and again, it eventually takes it (the step `tickLock`) -/
+def LockFair (run : Nat → S) : Prop :=
+  ∀ i, (∀ j, i ≤ j → ∃ k, j ≤ k ∧ (run k).tpc = .tlock ∧ (run k).holder = .free) →
+    ∃ k, i ≤ k ∧ (run k).tpc = .tlock ∧ (run (k + 1)).tpc = .tcrit
+
+/-- `select` is fair (it chooses uniformly among the ready cases): if the `done` case is ready again and again — the
+    goroutine at its `select`, the closer blocked on its send — the hand-over (the step `doneReceived`) is eventually
+    taken -/
 def SelectFair (run : Nat → S) : Prop :=
-  ∀ i, (∀ j, i ≤ j → ∃ k, j ≤ k ∧ (run k).tpc = .sel ∧ (run k).cpc = .send) → ∃ k, i ≤ k ∧ (run k).cpc = .ret
+  ∀ i, (∀ j, i ≤ j → ∃ k, j ≤ k ∧ (run k).tpc = .sel ∧ (run k).cpc = .send) →
+    ∃ k, i ≤ k ∧ (run k).tpc = .sel ∧ (run k).cpc = .send ∧ run (k + 1) = doDoneReceived (run k)
 
-theorem close_terminates_fair (c : Nat) (run : Nat → S) (h0 : run 0 = init c) (hs : ∀ i, Step (run i) (run (i + 1)))
-    (f1 : TickerScheduled run) (f2 : SelectFair run) :
-    ∀ i, (run i).cpc = .send → ∃ j, i ≤ j ∧ (run j).cpc = .ret := by
-  intro i hi
-  apply Classical.byContradiction
-  intro hno
-  have hno' : ∀ j, i ≤ j → (run j).cpc ≠ .ret := fun j hj h => hno ⟨j, hj, h⟩
-  have reach : ∀ j, Reachable c (run j) := by
-    intro j
-    induction j with
-    | zero => rw [h0]; exact .init
-    | succ j ih => exact .step _ _ ih (hs j)
-  have stay : ∀ j, i ≤ j → (run j).cpc = .send := by
-    intro j hj
-    induction j with
-    | zero =>
-      have : i = 0 := by omega
-      subst this; exact hi
-    | succ j ih =>
-      by_cases h : i ≤ j
-      · rcases cpc_send_next (hs j) (ih h) with h' | h'
-        · exact h'
-        · exact absurd h' (hno' (j + 1) hj)
+/-- the first index after `i` at which `P` stops holding -/
+theorem first_change (P : Nat → Prop) (i j : Nat) (hij : i ≤ j) (hi : P i) (hj : ¬ P j) :
+    ∃ m, i ≤ m ∧ m < j ∧ P m ∧ ¬ P (m + 1) := by
+  induction j with
+  | zero => have : i = 0 := by omega
+            subst this; exact absurd hi hj
+  | succ j ih =>
+    by_cases hP : P j
+    · by_cases hle : i ≤ j
+      · exact ⟨j, hle, Nat.lt_succ_self j, hP, hj⟩
       · have : i = j + 1 := by omega
-        subst this; exact hi
-  apply hno
-  apply f2 i
+        subst this; exact absurd hi hj
+    · by_cases hle : i ≤ j
+      · obtain ⟨m, h1, h2, h3, h4⟩ := ih hle hP
+        exact ⟨m, h1, by omega, h3, h4⟩
+      · have : i = j + 1 := by omega
+        subst this; exact absurd hi hj
+
+section live
+variable {c : Nat} {run : Nat → S} (r : IsRun c run) (hr : HoldersRun run) (lf : LockFair run)
+include r hr lf
+
+/-- while the closer stays blocked on `done`, the ticker goroutine comes back to its `select` from wherever it is -/
+theorem ticker_reaches_select (i : Nat) (stay : ∀ j, i ≤ j → (run j).cpc = .send) :
+    ∀ j, i ≤ j → ∃ k, j ≤ k ∧ (run k).tpc = .sel := by
+  -- from `tunl`
+  have fromTunl : ∀ j, i ≤ j → (run j).tpc = .tunl → ∃ k, j ≤ k ∧ (run k).tpc = .sel := by
+    intro j _ ht
+    obtain ⟨j', hj', hne⟩ := hr.ticker j (Or.inr ht)
+    rw [ht] at hne
+    obtain ⟨m, h1, _, h3, h4⟩ := first_change (fun n => (run n).tpc = .tunl) j j' hj' ht hne
+    refine ⟨m + 1, by omega, ?_⟩
+    rcases tpc_next (r.step m) with h | h | h | h | h | h | h | h
+    · exact absurd (h.trans h3) h4
+    · rw [h3] at h; cases h.1
+    · rw [h3] at h; cases h.1
+    · rw [h3] at h; cases h.1
+    · exact h.2
+    · rw [h3] at h; cases h.1
+    · rw [h3] at h; cases h.1
+    · rw [h3] at h; cases h.1
+  -- from `tcrit`
+  have fromTcrit : ∀ j, i ≤ j → (run j).tpc = .tcrit → ∃ k, j ≤ k ∧ (run k).tpc = .sel := by
+    intro j hj ht
+    obtain ⟨j', hj', hne⟩ := hr.ticker j (Or.inl ht)
+    rw [ht] at hne
+    obtain ⟨m, h1, _, h3, h4⟩ := first_change (fun n => (run n).tpc = .tcrit) j j' hj' ht hne
+    have hnext : (run (m + 1)).tpc = .tunl := by
+      rcases tpc_next (r.step m) with h | h | h | h | h | h | h | h
+      · exact absurd (h.trans h3) h4
+      · rw [h3] at h; cases h.1
+      · rw [h3] at h; cases h.1
+      · exact h.2
+      · rw [h3] at h; cases h.1
+      · rw [h3] at h; cases h.1
+      · rw [h3] at h; cases h.1
+      · rw [h3] at h; cases h.1
+    obtain ⟨k, hk, hs⟩ := fromTunl (m + 1) (by omega) hnext
+    exact ⟨k, by omega, hs⟩
+  -- from `tlock`: the lock is free again and again, so the fair lock lets the goroutine in
+  have fromTlock : ∀ j, i ≤ j → (run j).tpc = .tlock → ∃ k, j ≤ k ∧ (run k).tpc = .sel := by
+    intro j hj ht
+    -- either the goroutine leaves `tlock` at some point (then it is at `tcrit`) …
+    by_cases hleave : ∃ j', j ≤ j' ∧ (run j').tpc ≠ .tlock
+    · obtain ⟨j', hj', hne⟩ := hleave
+      obtain ⟨m, h1, _, h3, h4⟩ := first_change (fun n => (run n).tpc = .tlock) j j' hj' ht hne
+      have hnext : (run (m + 1)).tpc = .tcrit := by
+        rcases tpc_next (r.step m) with h | h | h | h | h | h | h | h
+        · exact absurd (h.trans h3) h4
+        · rw [h3] at h; cases h.1
+        · exact h.2
+        · rw [h3] at h; cases h.1
+        · rw [h3] at h; cases h.1
+        · rw [h3] at h; cases h.1
+        · rw [h3] at h; cases h.1
+        · rw [h3] at h; cases h.1
+      obtain ⟨k, hk, hs⟩ := fromTcrit (m + 1) (by omega) hnext
+      exact ⟨k, by omega, hs⟩
+    · -- … or it waits for ever; then the lock is free again and again and `LockFair` contradicts the waiting
+      exfalso
+      have hstay : ∀ j', j ≤ j' → (run j').tpc = .tlock := by
+        intro j' hj'
+        apply Classical.byContradiction
+        intro hne
+        exact hleave ⟨j', hj', hne⟩
+      have hfree : ∀ j', j ≤ j' → ∃ k, j' ≤ k ∧ (run k).tpc = .tlock ∧ (run k).holder = .free := by
+        intro j' hj'
+        obtain ⟨h1, h2, _⟩ := lockInv (r.reach j')
+        cases hq : (run j').holder with
+        | free => exact ⟨j', Nat.le_refl _, hstay j' hj', hq⟩
+        | ticker =>
+          have := hstay j' hj'
+          rcases h1.mp hq with h | h | h | h <;> rw [this] at h <;> cases h
+        | closer =>
+          have := stay j' (by omega)
+          rcases h2.mp hq with h | h <;> rw [this] at h <;> cases h
+        | api =>
+          obtain ⟨j'', hj'', hne⟩ := hr.api j' hq
+          obtain ⟨m, m1, _, m3, m4⟩ := first_change (fun n => (run n).holder = .api) j' j'' hj'' hq hne
+          rcases api_next (r.reach m) (r.step m) m3 with h | h
+          · exact absurd h m4
+          · exact ⟨m + 1, by omega, hstay (m + 1) (by omega), h⟩
+      obtain ⟨k, hk, _, hk2⟩ := lf j hfree
+      have := hstay (k + 1) (by omega)
+      rw [this] at hk2; cases hk2
   intro j hj
   have hsend := stay j hj
   cases ht : (run j).tpc with
-  | sel => exact ⟨j, Nat.le_refl _, ht, hsend⟩
-  | tlock =>
-    obtain ⟨k, hk, hk2⟩ := f1 j ht
-    exact ⟨k, hk, hk2, stay k (by omega)⟩
-  | dlock =>
-    have := closer_returned (reach j) (Or.inr ht)
-    rw [hsend] at this; cases this
-  | tend =>
-    have := closer_returned (reach j) (Or.inl ht)
-    rw [hsend] at this; cases this
+  | sel => exact ⟨j, Nat.le_refl _, ht⟩
+  | tlock => exact fromTlock j hj ht
+  | tcrit => exact fromTcrit j hj ht
+  | tunl => exact fromTunl j hj ht
+  | dlock => have := closer_returned (r.reach j) (Or.inl ht); rw [hsend] at this; cases this
+  | dcrit => have := closer_returned (r.reach j) (Or.inr (Or.inl ht)); rw [hsend] at this; cases this
+  | dunl => have := closer_returned (r.reach j) (Or.inr (Or.inr (Or.inl ht))); rw [hsend] at this; cases this
+  | tend => have := closer_returned (r.reach j) (Or.inr (Or.inr (Or.inr ht))); rw [hsend] at this; cases this
+
+/-- root `Close` blocked on `done` returns -/
+theorem send_returns (sf : SelectFair run) (i : Nat) (hi : (run i).cpc = .send) : ∃ j, i ≤ j ∧ (run j).cpc = .ret := by
+  apply Classical.byContradiction
+  intro hno
+  have stay : ∀ j, i ≤ j → (run j).cpc = .send := by
+    intro j hj
+    induction j with
+    | zero => have : i = 0 := by omega
+              subst this; exact hi
+    | succ j ih =>
+      by_cases h : i ≤ j
+      · rcases cpc_next (r.step j) with h' | h' | h' | h' | h'
+        · rw [h']; exact ih h
+        · rw [ih h] at h'; cases h'.1
+        · rw [ih h] at h'; cases h'.1
+        · rw [ih h] at h'; cases h'.1
+        · exfalso; apply hno; refine ⟨j + 1, hj, ?_⟩; rw [h'.2]; rfl
+      · have : i = j + 1 := by omega
+        subst this; exact hi
+  have again : ∀ j, i ≤ j → ∃ k, j ≤ k ∧ (run k).tpc = .sel ∧ (run k).cpc = .send := by
+    intro j hj
+    obtain ⟨k, hk, hs⟩ := ticker_reaches_select r hr lf i stay j hj
+    exact ⟨k, hk, hs, stay k (by omega)⟩
+  obtain ⟨k, hk, _, _, hstep⟩ := sf i again
+  apply hno
+  refine ⟨k + 1, by omega, ?_⟩
+  rw [hstep]; rfl
+
+/-- root `Close` returns from wherever it is inside `Close` -/
+theorem close_returns_fair (sf : SelectFair run) (i : Nat)
+    (hi : (run i).cpc = .crit ∨ (run i).cpc = .marked ∨ (run i).cpc = .send) : ∃ j, i ≤ j ∧ (run j).cpc = .ret := by
+  have fromMarked : ∀ i, (run i).cpc = .marked → ∃ j, i ≤ j ∧ (run j).cpc = .ret := by
+    intro i hm
+    obtain ⟨j', hj', hne⟩ := hr.closer i (Or.inr hm)
+    rw [hm] at hne
+    obtain ⟨m, h1, _, h3, h4⟩ := first_change (fun n => (run n).cpc = .marked) i j' hj' hm hne
+    have hnext : (run (m + 1)).cpc = .send := by
+      rcases cpc_next (r.step m) with h | h | h | h | h
+      · exact absurd (h.trans h3) h4
+      · rw [h3] at h; cases h.1
+      · rw [h3] at h; cases h.1
+      · exact h.2
+      · rw [h3] at h; cases h.1
+    obtain ⟨j, hj, hret⟩ := send_returns r hr lf sf (m + 1) hnext
+    exact ⟨j, by omega, hret⟩
+  rcases hi with hc | hc | hc
+  · obtain ⟨j', hj', hne⟩ := hr.closer i (Or.inl hc)
+    rw [hc] at hne
+    obtain ⟨m, h1, _, h3, h4⟩ := first_change (fun n => (run n).cpc = .crit) i j' hj' hc hne
+    rcases cpc_next (r.step m) with h | h | h | h | h
+    · exact absurd (h.trans h3) h4
+    · rw [h3] at h; cases h.1
+    · rcases h.2 with h | h
+      · obtain ⟨j, hj, hret⟩ := fromMarked (m + 1) h
+        exact ⟨j, by omega, hret⟩
+      · exact ⟨m + 1, by omega, h⟩
+    · rw [h3] at h; cases h.1
+    · rw [h3] at h; cases h.1
+  · exact fromMarked i hc
+  · exact send_returns r hr lf sf i hc
+
+end live
 
 end RL
